@@ -48,6 +48,15 @@ Proof.
     cbn; rewrite ?Ef, ?Eu; cbn; rewrite ?app_nil_r; reflexivity.
 Qed.
 
+(* the sampler's failed write: the interpretation on the model flow is the model step: nothing but the reload *)
+Theorem sadd_wfail_is_sstep s rows :
+  sadd_wfail_run model_sadd_flow model_save_flow s rows = sstep s (SAddFail rows).
+Proof.
+  unfold sadd_wfail_run. cbn [sa_stages model_sadd_flow fold_left]. cbn [sstep].
+  destruct (s_file s) as [t|] eqn:Ef; destruct (s_mem s) as [u|] eqn:Eu;
+    cbn; rewrite ?Ef, ?Eu; cbn; reflexivity.
+Qed.
+
 (* a failed write: the error reaches the caller, the file is untouched, memory holds what the file holds *)
 Theorem write_failure_atomic name e s a new pol tmp :
   Rel name e s a ->
